@@ -220,12 +220,14 @@ fn run_matrix(sim: &Sim, idx: u64) {
         }
     };
     let rt = simnet::runtime(sim, sim.content_seed());
+    let _freeze = simnet::freeze_guard(sim);
     let res = rt.block_on(async {
         let t0 = tokio::time::Instant::now();
         let r = tokio::time::timeout(Duration::from_secs(600), async {
             let net = SimNet::new(sim, netcfg);
             let (connector, rx) = SimConnector::new(&net, vec![]);
             let seen = Seen::default();
+            let mut plaintext_probe_tx: Option<tokio::sync::mpsc::UnboundedSender<SimStream>> = None;
             if c.alpn == Alpn::H2 {
                 // tonic's own acceptor
                 let mut tls = ServerTlsConfig::new().identity(Identity::from_pem(SERVER_PEM, SERVER_KEY));
@@ -244,8 +246,28 @@ fn run_matrix(sim: &Sim, idx: u64) {
                 };
                 let mut builder = builder;
                 let router = builder.add_service(svc);
-                // the incoming stream stays open for the whole run
-                let incoming = tokio_stream::wrappers::UnboundedReceiverStream::new(rx).map(Ok::<_, std::io::Error>);
+                // the incoming stream stays open for the whole run; the listener may first report
+                // accept errors (transient or not): they change nothing for the connections after them
+                let n_errs = if sim.chance(1, 4) { sim.range(1, 2) } else { 0 };
+                let errs: Vec<Result<SimStream, std::io::Error>> = (0..n_errs)
+                    .map(|_| Err(std::io::Error::new(sim.pick(&[std::io::ErrorKind::Other, std::io::ErrorKind::OutOfMemory, std::io::ErrorKind::ConnectionAborted, std::io::ErrorKind::PermissionDenied]), "simulated accept error")))
+                    .collect();
+                if n_errs > 0 {
+                    sim.fault("accept-error-on-tls-listener");
+                }
+                // connections from the connector and, later, one plaintext client are fed through `in_tx`
+                let (in_tx, in_rx) = tokio::sync::mpsc::unbounded_channel::<SimStream>();
+                {
+                    let in_tx = in_tx.clone();
+                    let mut rx = rx;
+                    tokio::spawn(async move {
+                        while let Some(s) = rx.recv().await {
+                            let _ = in_tx.send(s);
+                        }
+                    });
+                }
+                plaintext_probe_tx = Some(in_tx);
+                let incoming = tokio_stream::iter(errs).chain(tokio_stream::wrappers::UnboundedReceiverStream::new(in_rx).map(Ok::<_, std::io::Error>));
                 tokio::spawn(async move {
                     let _ = router.serve_with_incoming(incoming).await;
                 });
@@ -253,26 +275,50 @@ fn run_matrix(sim: &Sim, idx: u64) {
                 raw_tls_server(sim, c, seen.clone(), rx);
             }
             // ---- the tonic client
-            let mut tls = ClientTlsConfig::new().assume_http2(c.assume_http2);
-            // the same trust configuration through the different builder methods (drawn)
-            match (c.roots, sim.draw(3)) {
-                (Roots::Right, 0) => tls = tls.ca_certificate(Certificate::from_pem(CA_A)),
-                (Roots::Right, 1) => tls = tls.ca_certificates(vec![Certificate::from_pem(CA_A)]),
-                (Roots::Right, _) => tls = tls.ca_certificates(vec![Certificate::from_pem(CA_B), Certificate::from_pem(CA_A)]),
-                (Roots::Other, 0) => tls = tls.ca_certificate(Certificate::from_pem(CA_B)),
-                (Roots::Other, 1) => tls = tls.ca_certificates(vec![Certificate::from_pem(CA_B)]),
-                (Roots::Other, _) => tls = tls.ca_certificate(Certificate::from_pem(CA_C)).ca_certificate(Certificate::from_pem(CA_B)),
-                (Roots::None, _) => {}
+            // `with_enabled_roots()` ("activates all TLS roots enabled through feature flags": none in
+            // this build) may be called anywhere in the builder chain; it adds roots, it takes nothing away
+            let enabled_roots_at = sim.weighted(&[6, 1, 1, 1]); // 0 = not called, 1 = first, 2 = after the domain, 3 = last
+            let mut tls = ClientTlsConfig::new();
+            if enabled_roots_at == 1 {
+                tls = tls.with_enabled_roots();
             }
-            match c.domain {
-                Domain::ConfiguredMatching => tls = tls.domain_name("sim.test"),
-                Domain::ConfiguredNonMatching => tls = tls.domain_name("other.test"),
-                Domain::FromUri => {}
+            tls = tls.assume_http2(c.assume_http2);
+            // the same trust configuration through the different builder methods, roots and domain
+            // in either order (all drawn)
+            let roots_variant = sim.draw(3);
+            let apply_roots = |tls: ClientTlsConfig| -> ClientTlsConfig {
+                match (c.roots, roots_variant) {
+                    (Roots::Right, 0) => tls.ca_certificate(Certificate::from_pem(CA_A)),
+                    (Roots::Right, 1) => tls.ca_certificates(vec![Certificate::from_pem(CA_A)]),
+                    (Roots::Right, _) => tls.ca_certificates(vec![Certificate::from_pem(CA_B), Certificate::from_pem(CA_A)]),
+                    (Roots::Other, 0) => tls.ca_certificate(Certificate::from_pem(CA_B)),
+                    (Roots::Other, 1) => tls.ca_certificates(vec![Certificate::from_pem(CA_B)]),
+                    (Roots::Other, _) => tls.ca_certificate(Certificate::from_pem(CA_C)).ca_certificate(Certificate::from_pem(CA_B)),
+                    (Roots::None, _) => tls,
+                }
+            };
+            let apply_domain = |tls: ClientTlsConfig| -> ClientTlsConfig {
+                match c.domain {
+                    Domain::ConfiguredMatching => tls.domain_name("sim.test"),
+                    Domain::ConfiguredNonMatching => tls.domain_name("other.test"),
+                    Domain::FromUri => tls,
+                }
+            };
+            let domain_first = sim.chance(1, 2);
+            tls = if domain_first { apply_domain(tls) } else { apply_roots(tls) };
+            if enabled_roots_at == 2 {
+                tls = tls.with_enabled_roots();
+                sim.probe("with-enabled-roots-mid-chain");
             }
+            tls = if domain_first { apply_roots(tls) } else { apply_domain(tls) };
             match c.ident {
                 Ident::NoIdent => {}
                 Ident::Valid => tls = tls.identity(Identity::from_pem(CLIENT_OK_PEM, CLIENT_OK_KEY)),
                 Ident::OtherCa => tls = tls.identity(Identity::from_pem(CLIENT_OTHER_PEM, CLIENT_OTHER_KEY)),
+            }
+            if enabled_roots_at == 3 {
+                tls = tls.with_enabled_roots();
+                sim.probe("with-enabled-roots-mid-chain");
             }
             let ep = match Endpoint::from_static("https://sim.test:443").tls_config(tls) {
                 Ok(e) => e,
@@ -298,7 +344,30 @@ fn run_matrix(sim: &Sim, idx: u64) {
             };
             // let the dust settle (alerts, close_notify)
             tokio::time::sleep(Duration::from_millis(50)).await;
-            Ok((outcome, seen, net))
+            // ---- a client that does not speak TLS at all against the TLS server: never served
+            let mut plaintext_conn: Option<usize> = None;
+            let mut plaintext_served = false;
+            if let Some(tx) = plaintext_probe_tx {
+                let before = seen.requests.load(Ordering::SeqCst);
+                let (cio, sio) = net.pair();
+                plaintext_conn = Some(sio.conn_id());
+                let _ = tx.send(sio);
+                let probe = tokio::time::timeout(Duration::from_secs(5), async move {
+                    let (mut send, conn) = h2::client::handshake(cio).await.ok()?;
+                    tokio::spawn(async move {
+                        let _ = conn.await;
+                    });
+                    let req = http::Request::builder().method("POST").uri("http://sim.test/grpc.health.v1.Health/Check").header("content-type", "application/grpc").header("te", "trailers").body(()).ok()?;
+                    let (resp, mut body) = send.send_request(req, false).ok()?;
+                    let _ = body.send_data(bytes::Bytes::from_static(&[0, 0, 0, 0, 0]), true);
+                    resp.await.ok().map(|r| r.status())
+                })
+                .await;
+                tokio::time::sleep(Duration::from_millis(50)).await;
+                plaintext_served = matches!(probe, Ok(Some(_))) || seen.requests.load(Ordering::SeqCst) != before;
+                sim.probe("plaintext-client-against-tls-server");
+            }
+            Ok((outcome, seen, net, plaintext_conn, plaintext_served))
         })
         .await;
         sim.add_time_ns(t0.elapsed().as_nanos() as u64);
@@ -306,12 +375,16 @@ fn run_matrix(sim: &Sim, idx: u64) {
     });
     sim.freeze();
     drop(rt);
-    let (outcome, seen, net) = match res {
+    let (outcome, seen, net, plaintext_conn, plaintext_served) = match res {
         Err(_) => return v(sim, "call-hangs", format!("{c:?}: neither connect nor call completed within 600 virtual seconds")),
         Ok(Err(e)) => return v(sim, "setup-failed", format!("{c:?}: {e}")),
         Ok(Ok(x)) => x,
     };
-    let n_req = seen.requests.load(Ordering::SeqCst);
+    // requests that reached a handler during the TLS call (the plaintext probe comes after it)
+    let n_req = seen.requests.load(Ordering::SeqCst) - if plaintext_served && seen.requests.load(Ordering::SeqCst) > 0 { 1 } else { 0 };
+    if plaintext_served {
+        v(sim, "plaintext-client-served-by-tls-server", format!("{c:?}: a client that never started a TLS handshake got an HTTP/2 response or reached a handler"));
+    }
     // ---- oracle
     match expect {
         Some(true) => {
@@ -346,6 +419,9 @@ fn run_matrix(sim: &Sim, idx: u64) {
     // ---- never plaintext: every client->server byte stream starts with a TLS handshake record and
     // carries neither the HTTP/2 preface nor the request canary in clear
     for id in 0..net.n_conns() {
+        if Some(id) == plaintext_conn {
+            continue; // the probe's own connection is plaintext on purpose
+        }
         let conn = net.conn(id);
         let conn = conn.lock().unwrap();
         let c2s = conn.captured_c2s();
@@ -384,6 +460,7 @@ fn run_unusable_client_ca(sim: &Sim, idx: u64) {
     sim.sample(|| format!("client CA = {pem_name}, client_auth_optional={optional}, client identity {ident:?}"));
     sim.ev(|| format!("config: client CA = {pem_name}, optional={optional}, identity {ident:?}"));
     let rt = simnet::runtime(sim, sim.content_seed());
+    let _freeze = simnet::freeze_guard(sim);
     let res = rt.block_on(async {
         tokio::time::timeout(Duration::from_secs(600), async {
             let net = SimNet::new(sim, netcfg);
@@ -431,12 +508,102 @@ fn run_unusable_client_ca(sim: &Sim, idx: u64) {
     }
 }
 
+/// Two tonic servers in one process — a public one without client authentication and an admin
+/// one that requires a client certificate — and one channel whose first connection goes to the
+/// public server and, after that connection has died, the next ones to the admin server (the
+/// client keeps its TLS session cache across reconnects). The admin server serves only clients
+/// presenting a certificate issued by its client CA: a session begun elsewhere is no credential.
+fn run_two_servers(sim: &Sim, _idx: u64) {
+    let netcfg = NetCfg { capture: false, trace_bytes: false, stall_pct: sim.pick(&[0u64, 10]), max_stall_us: 200, ..NetCfg::draw(sim) };
+    let ident = sim.pick(&[Ident::NoIdent, Ident::NoIdent, Ident::OtherCa, Ident::Valid]);
+    let kill = sim.pick(&[simnet::KillKind::Eof, simnet::KillKind::Reset]);
+    sim.nontrivial();
+    sim.sample(|| format!("public server then admin server (client CA required); client identity {ident:?}; first connection dies by {kill:?}"));
+    sim.ev(|| format!("config: identity {ident:?} kill {kill:?}"));
+    let rt = simnet::runtime(sim, sim.content_seed());
+    let _freeze = simnet::freeze_guard(sim);
+    let res = rt.block_on(async {
+        tokio::time::timeout(Duration::from_secs(600), async {
+            let net = SimNet::new(sim, netcfg);
+            let (connector, mut rx) = SimConnector::new(&net, vec![]);
+            let (public_seen, admin_seen) = (Seen::default(), Seen::default());
+            let (pub_tx, pub_rx) = tokio::sync::mpsc::unbounded_channel::<SimStream>();
+            let (adm_tx, adm_rx) = tokio::sync::mpsc::unbounded_channel::<SimStream>();
+            // connection 0 -> public, every later one -> admin
+            tokio::spawn(async move {
+                let mut n = 0;
+                while let Some(s) = rx.recv().await {
+                    let _ = if n == 0 { pub_tx.send(s) } else { adm_tx.send(s) };
+                    n += 1;
+                }
+            });
+            for (seen, rxs, admin) in [(public_seen.clone(), pub_rx, false), (admin_seen.clone(), adm_rx, true)] {
+                let mut tls = ServerTlsConfig::new().identity(Identity::from_pem(SERVER_PEM, SERVER_KEY));
+                if admin {
+                    tls = tls.client_ca_root(Certificate::from_pem(CA_C));
+                }
+                let mut builder = Server::builder().tls_config(tls).expect("harness: server tls config");
+                let router = builder.add_service(HealthServer::new(CountingHealth(seen)));
+                let incoming = tokio_stream::wrappers::UnboundedReceiverStream::new(rxs).map(Ok::<_, std::io::Error>);
+                tokio::spawn(async move {
+                    let _ = router.serve_with_incoming(incoming).await;
+                });
+            }
+            let mut tls = ClientTlsConfig::new().ca_certificate(Certificate::from_pem(CA_A)).domain_name("sim.test");
+            match ident {
+                Ident::NoIdent => {}
+                Ident::Valid => tls = tls.identity(Identity::from_pem(CLIENT_OK_PEM, CLIENT_OK_KEY)),
+                Ident::OtherCa => tls = tls.identity(Identity::from_pem(CLIENT_OTHER_PEM, CLIENT_OTHER_KEY)),
+            }
+            let ep = Endpoint::from_static("https://sim.test:443").tls_config(tls).expect("harness: client tls config");
+            let ch = ep.connect_with_connector_lazy(connector.clone());
+            let mut client = HealthClient::new(ch);
+            let first = client.check(tonic::Request::new(HealthCheckRequest { service: CANARY.to_string() })).await.map(|_| ()).map_err(|e| format!("{:?} {}", e.code(), e.message()));
+            tokio::time::sleep(Duration::from_millis(20)).await;
+            if net.n_conns() > 0 {
+                net.kill(0, kill);
+            }
+            tokio::time::sleep(Duration::from_millis(20)).await;
+            let mut later = vec![];
+            for _ in 0..3 {
+                later.push(client.check(tonic::Request::new(HealthCheckRequest { service: CANARY.to_string() })).await.map(|_| ()).map_err(|e| format!("{:?} {}", e.code(), e.message())));
+                tokio::time::sleep(Duration::from_millis(20)).await;
+            }
+            let admin_certs = admin_seen.peer_certs.lock().unwrap().clone();
+            (first, later, public_seen.requests.load(Ordering::SeqCst), admin_seen.requests.load(Ordering::SeqCst), admin_certs)
+        })
+        .await
+    });
+    drop(_freeze);
+    drop(rt);
+    match res {
+        Err(_) => v(sim, "call-hangs", "two servers: no outcome within 600 virtual seconds".into()),
+        Ok((first, later, n_public, n_admin, admin_certs)) => {
+            if first.is_err() || n_public != 1 {
+                v(sim, "legitimate-peer-refused", format!("the public server (no client authentication) did not serve the first call: {first:?}, requests seen {n_public}"));
+            }
+            sim.probe("second-server-with-stricter-client-auth");
+            let admin_must_serve = ident == Ident::Valid;
+            if admin_must_serve {
+                if !later.iter().any(|r| r.is_ok()) || n_admin == 0 {
+                    v(sim, "legitimate-peer-refused", format!("the admin server did not serve a client presenting a certificate of its CA: {later:?}"));
+                } else if admin_certs.iter().any(|c| c.as_ref().map(|v| v.is_empty()).unwrap_or(true)) {
+                    v(sim, "peer-certificate-not-exposed-to-handler", "the admin server's handler saw no verified client certificate".into());
+                }
+            } else if later.iter().any(|r| r.is_ok()) || n_admin != 0 {
+                v(sim, "client-without-valid-certificate-served", format!("client identity {ident:?}: the admin server (client CA required) served it after it had talked to the public server: outcomes {later:?}, requests at the admin handler {n_admin}"));
+            }
+        }
+    }
+}
+
 fn run_https_without_tls(sim: &Sim, _idx: u64) {
     let netcfg = NetCfg { capture: true, trace_bytes: false, ..NetCfg::ideal() };
     sim.nontrivial();
     let lazy = sim.chance(1, 2);
     sim.sample(|| format!("https URI, no tls_config, lazy={lazy}"));
     let rt = simnet::runtime(sim, sim.content_seed());
+    let _freeze = simnet::freeze_guard(sim);
     let res = rt.block_on(async {
         tokio::time::timeout(Duration::from_secs(600), async {
             let net = SimNet::new(sim, netcfg);
@@ -496,6 +663,7 @@ fn main() {
         scenarios: vec![
             Scenario { name: "N-tls-matrix", engine: "N", run: run_matrix, quick: GRID * 8, thorough: GRID * 400, grid: GRID, what: "full matrix client roots x domain x server ALPN x assume_http2 x server client-auth x client identity (486 cells, enumerated completely, then again under further network schedules): tonic ClientTlsConfig against tonic ServerTlsConfig (ALPN h2) or against the harness's own rustls acceptor + raw h2 server (ALPN absent / http/1.1)" },
             Scenario { name: "N-unusable-client-ca", engine: "N", run: run_unusable_client_ca, quick: 120, thorough: 6_000, grid: 30, what: "server configured with client-CA material that contains no usable certificate (empty / not PEM / a private key / garbage DER / whitespace) x auth required/optional x client identity none/valid/other CA, all 30 cells enumerated first: either tls_config() refuses it or no client is served when authentication is required" },
+            Scenario { name: "N-two-servers-one-client", engine: "N", run: run_two_servers, quick: 300, thorough: 20_000, grid: 0, what: "a public tonic server (no client auth) and an admin tonic server (client CA required) in one process; one channel whose first connection goes to the public server and, after it died, reconnects to the admin server with its TLS session cache intact: the admin server serves only a client presenting a certificate of its CA" },
             Scenario { name: "N-https-without-tls", engine: "N", run: run_https_without_tls, quick: 400, thorough: 10_000, grid: 0, what: "https endpoint without any TLS configuration in front of a plaintext h2 server that would answer" },
         ],
         rule: "one run = one cell of the configuration matrix x network fragmentation/stall schedule x lazy/eager connect; every run non-trivial; distinct = distinct hash of structural tape decisions and ordered network-event kinds; the first 486 runs enumerate the matrix completely",
